@@ -235,6 +235,12 @@ def gen_pow(rng, tier):
         sk = rng.choice(['int', 'int', 'float', 'np.float64', 'np.int64', 'complex'])
         if sk in ('int', 'np.int64'):
             v = rng.choice([0, 1, 2, 3, 4, -1, -2])
+            if sk == 'int' and v >= 0 and x[0].size:
+                # non-negative Python-int exponents are plain products: defined for every base point, also 0 and negative ones
+                flat = x[0].reshape(-1)
+                flat[rng.randrange(flat.size)] = 0.0
+                if flat.size > 1:
+                    flat[rng.randrange(flat.size)] = -abs(flat[rng.randrange(flat.size)]) - 0.25
         elif sk == 'complex':
             v = complex(rng.choice([0.5, 1.5, 2.0]), rng.choice([1.0, -0.5]))
         else:
@@ -368,6 +374,7 @@ def run(ctx):
         f = inplace_view_fails(case)
         if f:
             ctx.report(case, 'failure', f)
+    systematic_pow(ctx)
     for i in range(n):
         case = gen_pow(ctx.rng, ctx.tier) if i % 6 == 5 else gen_case(ctx.rng, ctx.tier)
         ctx.evaluations += 1
@@ -389,6 +396,28 @@ def run(ctx):
         res = dispatch(ctx, case)
         if res is None and case['op'] != 'pow':
             res = oracle_fails(case)
+        if res is not None:
+            ctx.report(case, 'failure', res)
+
+
+def systematic_pow(ctx):
+    """every non-negative Python-int exponent at base points 0, negative and positive, D >= 2"""
+    for v in range(0, 5):
+        case = gen_pow(ctx.rng, ctx.tier)
+        while case['D'] < 2 or np.array(case['x'])[0].size == 0:
+            case = gen_pow(ctx.rng, ctx.tier)
+        case['form'] = 'scalar_exp'
+        case.pop('y', None)
+        case['r'] = {'k': 'S', 'sk': 'int', 'v': v}
+        x = np.array(case['x'])
+        flat = x[0].reshape(-1)
+        flat[0] = 0.0
+        if flat.size > 1:
+            flat[1] = -0.75
+        case['x'] = x
+        ctx.evaluations += 1
+        ctx.count('op=pow', 'pow:systematic')
+        res = dispatch(ctx, case)
         if res is not None:
             ctx.report(case, 'failure', res)
 
